@@ -798,7 +798,7 @@ ASSUME = [
     "Print Assumptions for every theorem of props/C07.v: see coverage.print_assumptions",
     "ValidOrder of the theorems is stronger than the statement's (it also keeps @variables between @namespace and the "
     "style-level rules); ValidOrder_statement derives the statement's clauses from it",
-    "rejected_unchanged excludes the one family where _cleanNamespaces raises after the new @namespace rule is in the "
-    "list (open finding C07-namespace-clean-raises, theorem rejected_unchanged_refuted)",
+    "rejected_unchanged_partial excludes only sheet.cssText= ending in NoModificationAllowedErr from the final "
+    "_cleanNamespaces (no such history is known)",
     "re-parse is compared on the top-level rule kinds (the statement's 'sequence of rules')",
 ]
